@@ -14,7 +14,7 @@ fn main() {
     }
     let thorough = args.tier == Tier::Thorough;
     let mut c = Check::new("C09", args.tier, "fault_enumeration");
-    c.rule = "for every driver x transport (model, MMIO legacy, MMIO modern, PCI) x feature variant: the fault-free construction counts K DMA allocations, then each k in 0..K is made to fail (also on a device that its previous owner left running and whose reset shows late in the status register); the configuration space is truncated to every length below the full size (and the 9P tag emptied); fault-free usage histories of 0..3 steps (GPU: 0..6, every allocating operation twice, and additionally each single command of that history answered with an error: what an earlier successful operation attached must still not be freed while attached; buffered net: 0..4, a burst received, recycled oldest first, every buffer used once more) are followed by drop. Oracles: error not panic, every DMA region returned exactly once with original arguments, none returned (and no posted driver-owned heap buffer freed) while the device is live on that queue, and no GPU backing region returned while the live device has it attached. distinct = distinct (driver, transport, outcome class)".into();
+    c.rule = "for every driver x transport (model, MMIO legacy, MMIO modern, PCI) x feature variant: the fault-free construction counts K DMA allocations, then each k in 0..K is made to fail (also on a device that its previous owner left running and whose reset shows late in the status register); the configuration space is truncated to every length below the full size (and the 9P tag emptied); fault-free usage histories of 0..3 steps (GPU: 0..6, every allocating operation twice, and additionally each single command of that history answered with an error: what an earlier successful operation attached must still not be freed while attached; buffered net: 0..7, a burst received, recycled oldest first, every buffer used once more, a runt completion while a buffer is held, the held buffer recycled afterwards) are followed by drop. Oracles: error not panic, every DMA region returned exactly once with original arguments, none returned (and no posted driver-owned heap buffer freed) while the device is live on that queue, and no GPU backing region returned while the live device has it attached. distinct = distinct (driver, transport, outcome class)".into();
     c.assumptions = vec!["buffers of requests that are still outstanding when a driver is dropped stay shared (not covered by this property)".into(), "GPU operations that allocate after construction are exercised by the C20 harness with the same ledger oracles".into()];
     let mut ev = 0u64;
     let mut classes: BTreeMap<String, u64> = BTreeMap::new();
@@ -43,7 +43,7 @@ fn main() {
                 let mut k_allocs = 0;
                 let max_usage = match kind {
                     Kind::Gpu => 6,
-                    Kind::NetBuf => 4,
+                    Kind::NetBuf => 7,
                     _ => 3,
                 };
                 for usage in 0..=max_usage {
